@@ -18,8 +18,10 @@ package state
 
 import (
 	"bufio"
+	"bytes"
 	"encoding/hex"
 	"encoding/json"
+	"fmt"
 	"math/big"
 	"os"
 	"testing"
@@ -37,15 +39,15 @@ type c12Trace struct {
 }
 
 type c12Obs struct {
-	P int      `json:"p,omitempty"`
-	A []int64  `json:"a"` // accounts
-	H []int64  `json:"h"` // handle table
-	C []int64  `json:"c"` // cached storages
-	B []int64  `json:"b"` // account buffer
-	AH []int64 `json:"ah"` // AccountState handles
-	HS []int64 `json:"hs"` // the State embedded in each ContractState handle
-	L  []int64 `json:"last"` // result of the last result-returning call
-	R []string `json:"r"` // roots
+	P  int      `json:"p,omitempty"`
+	A  []int64  `json:"a"`    // accounts
+	H  []int64  `json:"h"`    // handle table
+	C  []int64  `json:"c"`    // cached storages
+	B  []int64  `json:"b"`    // account buffer
+	AH []int64  `json:"ah"`   // AccountState handles
+	HS []int64  `json:"hs"`   // the State embedded in each ContractState handle
+	L  []int64  `json:"last"` // result of the last result-returning call
+	R  []string `json:"r"`    // roots
 }
 
 type c12CSnap struct {
@@ -69,7 +71,7 @@ type c12Env struct {
 	roots   [][]byte
 	ssnaps  []statedb.Snapshot
 	last    []int64
-	chash   map[string]int64 // code / source hash -> id
+	chash   map[string]int64        // code / source hash -> id
 	known   map[string]*types.State // leaf hash -> account state seen in the account buffer
 	vhash   map[string]int64        // leaf hash -> storage value id
 }
@@ -99,8 +101,8 @@ func c12CopyRoot(r []byte) []byte {
 	return append([]byte{}, r...)
 }
 
-func c12Code(c int64) []byte { return []byte{0xC0, byte(c)} }
-func c12Src(c int64) []byte  { return []byte{0x50, byte(c), 0x01} }
+func c12Code(c int64) []byte   { return []byte{0xC0, byte(c)} }
+func c12Src(c int64) []byte    { return []byte{0x50, byte(c), 0x01} }
 func c12RawKey(k int64) []byte { return []byte{'r', 'a', 'w', byte(k)} }
 
 func (e *c12Env) hashID(h []byte) int64 {
@@ -657,5 +659,152 @@ func TestVerifC12Alias(t *testing.T) {
 	g2, _ := cs.GetData([]byte("k0"))
 	res["GetData_returns_buffered_slice"] = g2[1] == 8
 	b, _ := json.Marshal(res)
+	os.WriteFile(outp, b, 0644)
+}
+
+// TestVerifC12Fault: StateDB.Update with a fault.  Several contract storages with staged writes, some of them
+// unable to update (their storage root names a trie node that is not in the store).  What is visible before and
+// after the call (buffer revision, every account state, the root, storage reads through the handles) is reported;
+// each case is repeated because the storages are walked in map order.
+type c12FaultCase struct {
+	Plain     int  `json:"plain"`
+	Healthy   int  `json:"healthy"`
+	Bad       int  `json:"bad"`
+	Precommit bool `json:"precommit"`
+	Trials    int  `json:"trials"`
+}
+
+type c12FaultView struct {
+	Rev    int      `json:"rev"`
+	States []string `json:"states"`
+	Root   string   `json:"root"`
+	Reads  []string `json:"reads,omitempty"`
+}
+
+type c12FaultTrial struct {
+	Err    bool         `json:"err"`
+	Before c12FaultView `json:"before"`
+	After  c12FaultView `json:"after"`
+}
+
+func TestVerifC12Fault(t *testing.T) {
+	inp, outp := os.Getenv("VERIF_IN"), os.Getenv("VERIF_OUT")
+	if inp == "" || outp == "" {
+		t.Skip("no VERIF_IN / VERIF_OUT")
+	}
+	raw, err := os.ReadFile(inp)
+	if err != nil {
+		t.Fatal(err)
+	}
+	var cases []c12FaultCase
+	if err := json.Unmarshal(raw, &cases); err != nil {
+		t.Fatal(err)
+	}
+	var out [][]c12FaultTrial
+	for _, c := range cases {
+		var trials []c12FaultTrial
+		for tr := 0; tr < c.Trials; tr++ {
+			store := db.NewDB(db.MemoryImpl, t.TempDir())
+			sdb := statedb.NewStateDB(store, nil, false)
+			var ids [][]byte
+			for i := 0; i < c.Plain; i++ {
+				id := []byte(fmt.Sprintf("c12f_plain_%02d", i))
+				ids = append(ids, id)
+				if err := sdb.PutState(types.ToAccountID(id), &types.State{Nonce: uint64(i + 1), Balance: []byte{byte(10 + i)}}); err != nil {
+					t.Fatal(err)
+				}
+			}
+			var hids [][]byte
+			for i := 0; i < c.Healthy; i++ {
+				id := []byte(fmt.Sprintf("c12f_contract_%02d", i))
+				ids = append(ids, id)
+				hids = append(hids, id)
+			}
+			if c.Precommit {
+				for i, id := range hids {
+					cs, err := statedb.OpenContractState(id, &types.State{Nonce: 1}, sdb)
+					if err != nil {
+						t.Fatal(err)
+					}
+					cs.SetData([]byte("k0"), []byte{byte(100 + i)})
+					statedb.StageContractState(cs, sdb)
+				}
+				if err := sdb.Update(); err != nil {
+					t.Fatal(err)
+				}
+				if err := sdb.Commit(); err != nil {
+					t.Fatal(err)
+				}
+			}
+			for i, id := range hids {
+				var cs *statedb.ContractState
+				var err error
+				if c.Precommit {
+					cs, err = statedb.OpenContractStateAccount(id, sdb)
+				} else {
+					cs, err = statedb.OpenContractState(id, &types.State{}, sdb)
+				}
+				if err != nil {
+					t.Fatal(err)
+				}
+				cs.SetData([]byte("k"), []byte{byte(i + 1)})
+				statedb.StageContractState(cs, sdb)
+			}
+			for i := 0; i < c.Bad; i++ {
+				id := []byte(fmt.Sprintf("c12f_bad_%02d", i))
+				ids = append(ids, id)
+				bogus := bytes.Repeat([]byte{0xAB, byte(i)}, 16)
+				cs, err := statedb.OpenContractState(id, &types.State{StorageRoot: bogus}, sdb)
+				if err != nil {
+					t.Fatal(err)
+				}
+				cs.SetData([]byte("k"), []byte{0xFF})
+				statedb.StageContractState(cs, sdb)
+			}
+			view := func(reads bool) c12FaultView {
+				v := c12FaultView{Rev: int(sdb.Snapshot()), Root: hex.EncodeToString(sdb.GetRoot())}
+				for _, id := range ids {
+					st, err := sdb.GetState(types.ToAccountID(id))
+					switch {
+					case err != nil:
+						v.States = append(v.States, "error")
+					case st == nil:
+						v.States = append(v.States, "nil")
+					default:
+						v.States = append(v.States, fmt.Sprintf("%d/%x/%x/%x", st.Nonce, st.Balance, st.StorageRoot, st.CodeHash))
+					}
+				}
+				if reads {
+					for _, id := range hids {
+						// a fresh handle (a staged one has given its storage away); it shares the cached storage
+						var cs *statedb.ContractState
+						var err error
+						if c.Precommit {
+							cs, err = statedb.OpenContractStateAccount(id, sdb)
+						} else {
+							cs, err = statedb.OpenContractState(id, &types.State{}, sdb)
+						}
+						if err != nil {
+							v.Reads = append(v.Reads, "open-error")
+							continue
+						}
+						g, err := cs.GetData([]byte("k"))
+						if err != nil {
+							v.Reads = append(v.Reads, "error")
+						} else {
+							v.Reads = append(v.Reads, hex.EncodeToString(g))
+						}
+					}
+				}
+				return v
+			}
+			tr := c12FaultTrial{Before: view(true)}
+			tr.Err = sdb.Update() != nil
+			tr.After = view(true)
+			trials = append(trials, tr)
+		}
+		out = append(out, trials)
+	}
+	b, _ := json.Marshal(out)
 	os.WriteFile(outp, b, 0644)
 }
